@@ -127,12 +127,12 @@ def coq_deps(rel):
     """NV-internal dependencies of a source file (relative paths), from its Require lines."""
     txt = re.sub(r"\(\*.*?\*\)", "", open(os.path.join(COQ, rel)).read(), flags=re.S)
     deps = []
-    for m in re.finditer(r"From\s+NV\s+Require\s+(?:Import|Export)?\s*([^.]*(?:\.[A-Za-z_][\w]*)*)\s*\.(?=\s)", txt):
+    for m in re.finditer(r"From\s+NV\s+Require\s+(?:Import\s+|Export\s+)?(.*?)\.(?=\s)", txt, flags=re.S):
         for mod in m.group(1).split():
             f = mod.replace(".", "/") + ".v"
             if os.path.exists(os.path.join(COQ, f)):
                 deps.append(f)
-    for m in re.finditer(r"Require\s+(?:Import|Export)?\s+((?:NV\.[\w.]+\s*)+)\.(?=\s)", txt):
+    for m in re.finditer(r"(?<!NV\s)Require\s+(?:Import\s+|Export\s+)?((?:NV\.[\w.]+\s*)+)\.(?=\s)", txt):
         for mod in m.group(1).split():
             f = mod[3:].replace(".", "/") + ".v"
             if os.path.exists(os.path.join(COQ, f)):
